@@ -7,7 +7,7 @@ import (
 	"verifharness/kit"
 )
 
-const rule = "inputs: (a) abstract triangle / segment soups over a 3..18-vertex pool (random triples, triangulated bands closed with and without a half twist, a tetrahedron plus random faces, signed-zero twins), (b) closed manifold meshes - nested arrangements of boxes, octahedra, icospheres and tori (up to 12 shells, nesting depth up to 5, siblings inside a sibling's bounding box via torus holes / U notches, global rotation, scale, shift), marching cubes / squares of random lattice solids and CSG trees - with deliberate damage: faces removed, duplicated, re-oriented, vertices merged (pinches, non-manifold edges), per-face vertex copies jittered by < 0.45 eps with vertex separation > 3.5 eps. Non-trivial: diagnostics clauses - at least one diagnostic is not clean; jitter - at least one vertex has two distinct copies; normal repair - at least one face re-oriented; hierarchy - nesting depth >= 2 or >= 3 components. Distinct: hash of the JSON case."
+const rule = "inputs: (a) abstract triangle / segment soups over a 3..18-vertex pool (random triples, triangulated bands closed with and without a half twist, a tetrahedron plus random faces, signed-zero twins), (b) closed manifold meshes - nested arrangements of boxes, octahedra, icospheres and tori (up to 12 shells, nesting depth up to 5, concentric or in grid cells, siblings inside a sibling's bounding box via torus holes / U notches, global rotation or axis-aligned, scale, shift), marching cubes / squares of random lattice solids and CSG trees - with deliberate damage: faces removed, duplicated, re-oriented (single faces, per-component fractions, all but a few), vertices merged (pinches, non-manifold edges), per-face vertex copies jittered by <= 0.45 eps with vertex separation >= 3.5 eps (maximum norm); pairs of convex shells that are disjoint, nested or crossing. Non-trivial: diagnostics / majority clauses - at least one diagnostic is not clean; jitter - at least one vertex has two distinct copies; normal repair - at least one face re-oriented; hierarchy - nesting depth >= 2 or >= 3 components; self-intersection pairs - the pair is classified (not skipped). Distinct: hash of the JSON case."
 
 func TestProp(t *testing.T) {
 	runtime.GOMAXPROCS(2)
